@@ -223,6 +223,7 @@ REG.contract(
 REG.contract(
     'EditDistance.tighten_bounds', params={'self': 'ref[EditDistance]'}, returns='bool', allocates=True,
     requires=['ed_wf(self)'], modifies=MOD_SELF,
+    dropped_locals=['fringe_ranges', 'fringe_total', 'num_diagonals'],
     ensures=['ed_wf(self)', EDITS_KEPT, f'implies(isnone(old({EM})), isnone({EM}))',
              f'implies(not result and ({M} > 0 or {N} > 0), ed_complete(self))',
              'implies(old(ed_complete(self)), ed_complete(self))'],
